@@ -5,6 +5,7 @@
 import Gnet.Spec.ReactorSpec
 import Gnet.Proofs.ReactorLife
 import Gnet.Props.Handover
+import Gnet.Spec.ReactorExample
 namespace Gnet.Props.C07
 open Gnet.Reactor
 
@@ -14,6 +15,10 @@ open Gnet.Reactor
 theorem fd_discipline (s s' : RState) (toks : List Tok) (hn : NamesNodup s)
     (h : acceptRound s toks = .ok s') (hl : InvLife s) (hf : InvFd s) : InvFd s' :=
   Proofs.ReactorLife.fd_discipline s s' toks hn h hl hf
+
+/-! Non-vacuity of `fd_discipline`: the recorded history issues accept, epoll_ctl, write, read, epoll_ctl(DEL) and close on
+c1, and ends with the descriptor closed. -/
+example : (Example.after 3).bind Example.lifeView = some (["open", "traffic", "close"], false) := by decide +kernel
 
 /-! ### Hand-over of accepted connections and shutdown (model: Model/Handover.lean)
 
